@@ -11,7 +11,7 @@ def main():
     jobs = []
     for i in range(n):
         nd, np_ = shapes[i % len(shapes)]
-        jobs.append((s0 + i, dict(nd=nd, np=np_, copies=2), prof, steps, None, None))
+        jobs.append((s0 + i, dict(nd=nd, np=np_, copies=2, **({"hash_size": int(os.environ["HS"])} if os.environ.get("HS") else {})), prof, steps, None, None))
     scs = arrayprop.record_scenarios(jobs, procs=12)
     for s in scs:
         if s.get("err"):
